@@ -2,6 +2,13 @@
 
 package tools
 
+import (
+	"github.com/lni/dragonboat/v4/config"
+	"github.com/lni/dragonboat/v4/internal/server"
+	"github.com/lni/dragonboat/v4/internal/vfs"
+	pb "github.com/lni/dragonboat/v4/raftpb"
+)
+
 // Hooks for the C20 verification harness (quorum-loss repair by
 // ImportSnapshot): the unexported pure steps of ImportSnapshot. Add-only;
 // compiled only with -tags verif.
@@ -22,3 +29,34 @@ var (
 	// VerifGetSnapshotRecord is getSnapshotRecord.
 	VerifGetSnapshotRecord = getSnapshotRecord
 )
+
+// VerifReadSnapshotRecord opens the log store of the NodeHost directory the
+// same way ImportSnapshot does and returns the newest snapshot record of the
+// replica (what a restarting NodeHost is going to find).
+func VerifReadSnapshotRecord(nhConfig config.NodeHostConfig,
+	shardID uint64, replicaID uint64) (ss pb.Snapshot, err error) {
+	if nhConfig.DeploymentID == 0 {
+		nhConfig.DeploymentID = unmanagedDeploymentID
+	}
+	if nhConfig.Expert.FS == nil {
+		nhConfig.Expert.FS = vfs.DefaultFS
+	}
+	if err := nhConfig.Prepare(); err != nil {
+		return pb.Snapshot{}, err
+	}
+	env, err := server.NewEnv(nhConfig, nhConfig.Expert.FS)
+	if err != nil {
+		return pb.Snapshot{}, err
+	}
+	defer func() {
+		err = firstError(err, env.Close())
+	}()
+	db, err := getLogDB(*env, nhConfig)
+	if err != nil {
+		return pb.Snapshot{}, err
+	}
+	defer func() {
+		err = firstError(err, db.Close())
+	}()
+	return db.GetSnapshot(shardID, replicaID)
+}
